@@ -18,10 +18,19 @@ func ruleRowIndicators(c *Ctx) {
 	}{{"pdf417.getLeftCodeWord", 0}, {"pdf417.getRightCodeWord", 2}} {
 		fn := c.P.Func(side.fn)
 		if fn == nil {
+			// recognised by its role: the function whose result is wrapped by getCodeword before
+			// (left) / after (right) the data codewords of a row
+			l, r := pdfIndicatorFuncs(c)
+			fn = l
+			if side.rot != 0 {
+				fn = r
+			}
+		}
+		if fn == nil {
 			c.Anchor(R, side.fn, "function not found")
 			continue
 		}
-		c.Fn(side.fn)
+		c.Fn(c.P.FuncName(fn))
 		rets := returnsOf(fn)
 		if len(rets) != 1 {
 			c.Undecided(R, side.fn, fn.Pos(), "expected one return")
@@ -91,6 +100,36 @@ func ruleRowIndicators(c *Ctx) {
 			c.Check(R, key, pos, pEqual(got, want), want.String(), got.String())
 		}
 	}
+}
+
+// pdfIndicatorFuncs: the two functions whose results EncodeWithColor passes through getCodeword as
+// the first and as the last codeword of a row (besides start and stop pattern).
+func pdfIndicatorFuncs(c *Ctx) (left, right *ssa.Function) {
+	enc := c.P.Func("pdf417.EncodeWithColor")
+	gc := c.P.Func("pdf417.getCodeword")
+	if enc == nil || gc == nil {
+		return nil, nil
+	}
+	var calls []*ssa.Call
+	for _, s := range c.P.deepCallsTo(enc, gc) {
+		a := s.Ins.(*ssa.Call).Common().Args
+		if len(a) != 2 {
+			continue
+		}
+		if ic, ok := a[1].(*ssa.Call); ok && calleeOf(ic) != nil && isRepoFunc(calleeOf(ic)) && calleeOf(ic).Blocks != nil {
+			calls = append(calls, ic)
+		}
+	}
+	if len(calls) != 2 || calls[0].Parent() != calls[1].Parent() || calleeOf(calls[0]) == calleeOf(calls[1]) {
+		return nil, nil
+	}
+	switch {
+	case dominatesInstr(calls[0], calls[1]):
+		return calleeOf(calls[0]), calleeOf(calls[1])
+	case dominatesInstr(calls[1], calls[0]):
+		return calleeOf(calls[1]), calleeOf(calls[0])
+	}
+	return nil, nil
 }
 
 // pdfIndicatorContext: a normaliser in which the parameters of a row-indicator function resolve to
